@@ -1,7 +1,7 @@
 /* C10 harness: record-aware man-in-the-middle between an honest client and an honest server.
- *   layout <proto> <auth> <seed> [plan]
+ *   layout <proto> <auth> <seed> [plan [nca]]        nca = CA certificates in trust store / client-CA bundle
  *        fault-free run; prints per direction the records that crossed the proxy (type:len)
- *   fault <proto> <auth> <seed> <kind> <dir> <idx> <off> <bit> <keep> [plan]
+ *   fault <proto> <auth> <seed> <kind> <dir> <idx> <off> <bit> <keep> [plan [nca]]
  *        plan = application messages each side sends after the handshake: [x]len[:pad],... (d = two of 16 bytes;
  *        x = through the harness' record-level sender, which can emit empty and padded records)
  *        kind: flip drop dup swap trunc-close trunc-fixlen inject ; dir 0 = client->server
@@ -22,17 +22,23 @@ static pki_t *get_pki(void) {
 /* second receive after the post exchange of endpoint_main */
 typedef struct { int r2; size_t l2; } post2_t;
 
-static int run(int protocol, int auth, uint64_t seed, fault_t *f, int timeout_ms, int want_layout, const char *plan) {
+static int run(int protocol, int auth, uint64_t seed, fault_t *f, int timeout_ms, int want_layout, const char *plan, int nca) {
 	pki_t *k = get_pki(); session_t *S; uint8_t *schain = NULL, *cchain = NULL; size_t schainlen = 0, cchainlen = 0;
 	int d, i;
 	if (!k) { printf("ERR setup"); return -1; }
 	S = calloc(1, sizeof(*S));
 	chain_build(&schain, &schainlen, k, &k->ssign, protocol == TLS_protocol_tlcp ? &k->senc : NULL);
 	chain_build(&cchain, &cchainlen, k, &k->csign, NULL);
-	if (ep_setup(&S->s, protocol, 0, schain, schainlen, &k->ssign.key, protocol == TLS_protocol_tlcp ? &k->senc.key : NULL,
-			auth ? k->root.der : NULL, auth ? k->root.len : 0) != 1
-		|| ep_setup(&S->c, protocol, 1, auth ? cchain : NULL, auth ? cchainlen : 0, auth ? &k->csign.key : NULL, NULL,
-			k->root.der, k->root.len) != 1) { printf("ERR setup"); free(schain); free(cchain); free(S); return -1; }
+	{	/* nca > 1: the client's trust store and the server's client-CA bundle hold nca certificates */
+		uint8_t *anch = NULL; size_t anchlen = 0; int ok;
+		if (nca > 1) { ent_seed(0xCA1000 + (uint64_t)nca, -1); if (bundle_build(&anch, &anchlen, &k->root, nca, (int)(seed % (uint64_t)nca), 0) != 1) { printf("ERR bundle"); free(schain); free(cchain); free(S); return -1; } }
+		else { anch = malloc(k->root.len); memcpy(anch, k->root.der, k->root.len); anchlen = k->root.len; }
+		ok = ep_setup(&S->s, protocol, 0, schain, schainlen, &k->ssign.key, protocol == TLS_protocol_tlcp ? &k->senc.key : NULL,
+				auth ? anch : NULL, auth ? anchlen : 0) == 1
+			&& ep_setup(&S->c, protocol, 1, auth ? cchain : NULL, auth ? cchainlen : 0, auth ? &k->csign.key : NULL, NULL, anch, anchlen) == 1;
+		free(anch);
+		if (!ok) { printf("ERR setup"); free(schain); free(cchain); free(S); return -1; }
+	}
 	S->c.seed = seed * 2 + 1; S->s.seed = seed * 2 + 2;
 	S->c.post = S->s.post = 1;
 	ep_plan(&S->c, plan); ep_plan(&S->s, plan);
@@ -70,12 +76,12 @@ static int kind_of(const char *s) {
 }
 
 static void handle(size_t nw, char **w) {
-	if (!strcmp(w[0], "layout") && (nw == 4 || nw == 5)) run(proto_of(w[1]), atoi(w[2]), strtoull(w[3], NULL, 10), NULL, 6000, 1, nw == 5 ? w[4] : "d");
-	else if (!strcmp(w[0], "fault") && (nw == 10 || nw == 11)) {
+	if (!strcmp(w[0], "layout") && nw >= 4 && nw <= 6) run(proto_of(w[1]), atoi(w[2]), strtoull(w[3], NULL, 10), NULL, 6000, 1, nw >= 5 ? w[4] : "d", nw == 6 ? atoi(w[5]) : 1);
+	else if (!strcmp(w[0], "fault") && nw >= 10 && nw <= 12) {
 		fault_t f; memset(&f, 0, sizeof f);
 		f.kind = kind_of(w[4]); f.dir = atoi(w[5]); f.idx = atoi(w[6]); f.off = strtoul(w[7], NULL, 10); f.bit = atoi(w[8]) & 7; f.keep = strtoul(w[9], NULL, 10);
 		if (f.kind < 0 || proto_of(w[1]) < 0) { printf("ERR bad-op"); return; }
-		run(proto_of(w[1]), atoi(w[2]), strtoull(w[3], NULL, 10), &f, 800, 0, nw == 11 ? w[10] : "d");
+		run(proto_of(w[1]), atoi(w[2]), strtoull(w[3], NULL, 10), &f, 800, 0, nw >= 11 ? w[10] : "d", nw == 12 ? atoi(w[11]) : 1);
 	}
 	else printf("ERR bad-op");
 }
